@@ -374,6 +374,10 @@ VerdictW(W, adds, e, cl, pk, res, dep, anyErr, refusedAfter, bundleOK, x) ==
   IN [c14 |-> w14 = {}, w14 |-> w14, kf14 |-> "",
       c08 |-> w08 = {}, w08 |-> w08, kf08 |-> "",
       c17 |-> w17 = {}, w17 |-> w17, kf17 |-> "",
+      \* C11 at the level of the builder: what is analysed for a registry request is the registry's address with the
+      \* requested sub-path joined on (every needed artifact analysed, registry targets as the world says)
+      c11 |-> { wz \in w14 : wz[1] = "not-analyzed" } \cup { wz \in w08 : wz[1] = "registry-target-differs" } = {},
+      w11 |-> { wz \in w14 : wz[1] = "not-analyzed" } \cup { wz \in w08 : wz[1] = "registry-target-differs" }, kf11 |-> "",
       c12 |-> w12 = {}, w12 |-> w12, kf12 |-> "",
       c13 |-> w13 = {}, w13 |-> w13, kf13 |-> "",
       c10 |-> w10 = {}, w10 |-> w10, kf10 |-> "",
